@@ -42,32 +42,14 @@ var strFuncs = map[string]LGFunction{
 
 func strByte(L *LState) int {
 	str := L.CheckString(1)
-	start := L.OptInt(2, 1) - 1
-	end := L.OptInt(3, -1)
-	l := len(str)
-	if start < 0 {
-		start = l + start + 1
-	}
-	if end < 0 {
-		end = l + end + 1
-	}
-
-	if L.GetTop() == 2 {
-		if start < 0 || start >= l {
-			return 0
-		}
-		L.Push(LNumber(str[start]))
-		return 1
-	}
-
-	start = intMax(start, 0)
-	end = intMin(end, l)
-	if end < 0 || end <= start || start >= l {
+	i := L.OptInt(2, 1)
+	start := luaIndex2StringIndex(str, i, true)
+	end := luaIndex2StringIndex(str, L.OptInt(3, i), false)
+	if start >= len(str) || end <= start {
 		return 0
 	}
-
-	for i := start; i < end; i++ {
-		L.Push(LNumber(str[i]))
+	for k := start; k < end; k++ {
+		L.Push(LNumber(str[k]))
 	}
 	return end - start
 }
